@@ -34,10 +34,11 @@ ERRS = {"EPIPE": errno.EPIPE, "EFBIG": errno.EFBIG, "ENOSPC": errno.ENOSPC, "EIO
 def scenarios(exe, seed, tier):
     r = random.Random(seed * 13 + 2)
     out = []
-    shapes = [("compress", 1), ("compress", 5), ("decompress", 1), ("decompress", 6), ("copy", 3)]
+    shapes = [("compress", 1), ("compress", 5), ("decompress", 1), ("decompress", 6), ("copy", 3), ("compress", 12),
+              ("decompress", 14), ("copy", 1), ("copy", 9)]
     if tier != "quick":
-        shapes += [("compress", 14), ("compress", 3), ("decompress", 14), ("decompress", 3), ("copy", 1), ("copy", 9),
-                   ("compress", 8), ("decompress", 9)]
+        shapes += [("compress", 14), ("compress", 3), ("decompress", 3), ("compress", 8), ("decompress", 9),
+                   ("copy", 5), ("compress", 2), ("decompress", 2)]
     for i, (mode, chunks) in enumerate(shapes):
         n = [1, 2, 4, 16][(i + seed) % 4]
         if mode == "compress":
@@ -54,6 +55,8 @@ def scenarios(exe, seed, tier):
             size = chunks * 65536 + r.randrange(-2, 3)
             data = b"not bzip2 " + r.randbytes(size)
             argv = ["-cdf", "-n", str(n)]
+        if i % 2:
+            argv = argv + ["-v"]      # verbose: the main thread has already used stderr when a sub-thread fails
         out.append({"mode": mode, "chunks": chunks, "n": n, "argv": argv, "data": data,
                     "id": "%s-%dchunks-n%d-%s" % (mode, chunks, n, core.fp(data)[:6])})
     return out
@@ -67,6 +70,7 @@ def count_calls(exe, shim, sc, td):
     r = core.run([exe] + sc["argv"], env={"LD_PRELOAD": shim, "IOFAULT": "log=" + log}, stdin_file=inp, timeout=TIMEOUT)
     if r.rc != 0:
         raise core.HarnessError("fault-free run of scenario %s failed: rc=%s %r" % (sc["id"], r.rc, r.err[:200]))
+    sc["ref_out"] = r.out
     nr = nw = 0
     with open(log) as f:
         for line in f:
@@ -215,6 +219,22 @@ def make_eval(exe, shim, scs, td):
         tries = 0
         while True:
             failed = True
+            if item.get("short") is not None:
+                # no fault at all: every read()/write() is merely cut short (legal); output must be complete
+                r = run_raw([exe] + sc["argv"], {"LD_PRELOAD": shim, "IOFAULT": "short=%d" % item["short"]}, sc["inp"], False)
+                en = "none"
+                bad = None if (r.rc == 0 and r.out == sc["ref_out"]) else \
+                    "short reads/writes without any error: exit %s, %d of %d output bytes, stderr %r" % (
+                        r.rc, len(r.out), len(sc["ref_out"]), r.err[:200])
+                if r.timeout:
+                    bad = "HANG"
+                if bad != "HANG":
+                    break
+                tries += 1
+                if tries >= 3:
+                    bad = "hang: no exit within %d s in 3 consecutive runs" % TIMEOUT
+                    break
+                continue
             if item.get("real"):
                 r, en, failed = run_real(exe, sc, item, td, shim)
             else:
@@ -234,6 +254,8 @@ def make_eval(exe, shim, scs, td):
         if item.get("real") and not failed:
             stats.extra["real-fault-did-not-bite(no write failed)"] += 1
         labels = [sc["mode"], item.get("real") or ("%s:%s" % (item["op"], item["err"])), "workers=%d" % sc["n"]]
+        if "-v" in sc["argv"]:
+            labels.append("verbose")
         if item["ign"]:
             labels.append("SIGPIPE-ignored")
         if r.rc is not None and r.rc < 0:
@@ -261,6 +283,8 @@ def items_for(scs, seed, tier):
                 items.append({"sc": i, "op": "write", "k": k, "err": en, "ign": False})
             items.append({"sc": i, "op": "write", "k": k, "err": "EPIPE", "ign": True})
         items.append({"sc": i, "real": "devfull", "k": 1, "ign": False, "op": "write", "err": "ENOSPC"})
+        for j in range(2 if tier == "quick" else 6):
+            items.append({"sc": i, "short": r.randrange(10**6), "k": 2, "ign": False, "op": "read+write", "err": "short"})
         ol = max(1, sc["out_len"])
         cuts = sorted({0, 1, ol // 3, ol // 2, ol - 1, ol} | {r.randrange(ol) for _ in range(3 if tier == "quick" else 12)})
         for c in cuts:
